@@ -206,7 +206,7 @@ fn judge(plan: &Plan, _tier: Tier) -> Judged {
 				Ok(d) => d,
 				Err(_) => continue,
 			};
-			let r = recover_check(&plan.opts, &dir, &model, lo, hi.max(lo), &plan.keys, false, plan.case_seed ^ n as u64, false);
+			let r = recover_check(&plan.opts, &dir, &model, lo, hi.max(lo), &plan.keys, false, plan.case_seed ^ n as u64, false, false);
 			let _ = std::fs::remove_dir_all(&dir);
 			j.evaluations += 1;
 			if let Some(v) = r.violation {
@@ -215,6 +215,10 @@ fn judge(plan: &Plan, _tier: Tier) -> Judged {
 						eprintln!("  commit txn{} {}..{} {:?} logged={:?} applied={:?} writes={:?}", c.txn, c.first_seq, c.last_seq, c.status, c.logged_wal, c.applied_wal, c.writes.iter().map(|w| crate::exec::hex(&w.key)).collect::<Vec<_>>());
 					}
 					eprintln!("  lo={} hi={} got={:?} explained={:?}", lo, hi, r.contents.keys().map(|k| crate::exec::hex(k)).collect::<Vec<_>>(), v.explained);
+				}
+				let mut v = v;
+				if v.explained.is_none() && crate::recovery::index_torn_by_power_loss(&plan.opts, cm == CrashModel::PowerLoss, &v) {
+					v.explained = Some("version_index_torn_by_power_loss".into());
 				}
 				if v.explained.is_some() {
 					j.violation = Some(Violation { class: v.class, detail: format!("[{}] crash point {} {:?}: {}", fault_desc, n, cm, v.detail), explained: v.explained });
